@@ -30,4 +30,13 @@ func TestReplay(t *testing.T) {
 
 func registerAll() {
 	ev.Register("C06", "labelprog", checkC06)
+	ev.Register("C01", "policy-events", checkC01)
+	ev.Register("C02", "grid", checkC02)
+	ev.Register("C07", "policy", checkC07)
+	ev.Register("C05", "program", checkC05)
+	ev.Register("C05", "verifier-differential", checkC05Diff)
+	ev.Register("C07", "arch", checkC07Arch)
+	ev.Register("C02", "random", checkC02)
+	ev.Register("C03", "policy-events", checkC03)
+	ev.Register("C04", "policy-events", checkC04)
 }
